@@ -77,6 +77,88 @@ def user_bodies(crate):
     return out
 
 
+def _operand_consts(o):
+    if isinstance(o, dict):
+        if 'const' in o and isinstance(o['const'], dict):
+            yield o['const']
+        for v in o.values():
+            if isinstance(v, (dict, list)):
+                yield from _operand_consts(v)
+    elif isinstance(o, list):
+        for v in o:
+            yield from _operand_consts(v)
+
+
+def fn_refs(b):
+    """every function this body refers to: callees of its call terminators, function items passed or stored as values
+    (`.map(PyPath::from)`, `.map_err(value_error)`) and closures it builds; each as ('call'|'item'|'closure', func-dict|path)"""
+    out = []
+    for bi, blk in enumerate(b.blocks):
+        if blk['cleanup']:
+            continue
+        for st in blk['stmts']:
+            if st['k'] != 'assign':
+                continue
+            rv = st['rv']
+            if rv.get('k') == 'agg' and rv.get('agg') == 'closure':
+                out.append(('closure', rv['closure']))
+            for c in _operand_consts(rv):
+                if 'fn' in c:
+                    out.append(('item', c['fn']))
+                elif 'closure' in c:
+                    out.append(('closure', c['closure']))
+        t = blk['term']
+        if t['k'] == 'call':
+            if 'path' in t['func']:
+                out.append(('call', t['func']))
+            for c in _operand_consts(t['args']):
+                if 'fn' in c:
+                    out.append(('item', c['fn']))
+                elif 'closure' in c:
+                    out.append(('closure', c['closure']))
+    return out
+
+
+def weight(crate, b, pred, stack=()):
+    """how many times the body reaches a function satisfying pred, counting through the binding crate's own helpers,
+    closures and function items: a match with one core call per arm, six calls of one generic helper and a macro
+    expanded six times all weigh six"""
+    if b.path in stack:
+        return 0
+    n = 0
+    for kind, f in fn_refs(b):
+        if kind == 'closure':
+            cb = crate.body(f)
+            if cb is not None:
+                n += weight(crate, cb, pred, stack + (b.path,))
+            continue
+        if pred(f):
+            n += 1
+            continue
+        hb = crate.body(f.get('path', ''))
+        if hb is not None and f.get('krate') in (None, crate.name, 'oxmpl_py', 'oxmpl_js'):
+            n += weight(crate, hb, pred, stack + (b.path,))
+    return n
+
+
+def reach_refs(crate, b, stack=()):
+    """fn_refs of the body and, transitively, of the binding crate's helpers / closures it refers to"""
+    if b.path in stack:
+        return []
+    out = []
+    for kind, f in fn_refs(b):
+        if kind == 'closure':
+            cb = crate.body(f)
+            if cb is not None:
+                out += reach_refs(crate, cb, stack + (b.path,))
+            continue
+        out.append(f)
+        hb = crate.body(f.get('path', ''))
+        if hb is not None:
+            out += reach_refs(crate, hb, stack + (b.path,))
+    return out
+
+
 def run(ctx, tier):
     r_args = RuleResult('C19.args', 'same-typed arguments reach core functions in parameter order, unmodified')
     r_disp = RuleResult('C19.dispatch', 'every planner wrapper handles every variant in every method')
@@ -173,20 +255,23 @@ def run(ctx, tier):
                 if mname != 'construct_roadmap':
                     r_disp.violations.append(Violation('C19', 'C19.dispatch', adt, mname, 'wrapper has no %s' % mname))
                 continue
-            calls = [t for _bi, t in b.calls() if t['func'].get('krate') == 'oxmpl' and re.search(pattern, t['func'].get('path', ''))
-                     and 'geometric' in (t['func'].get('path', '') + t['func'].get('full', ''))]
             if mname in ('setup', 'solve'):
-                calls = [t for _bi, t in b.calls() if re.search(pattern, t['func'].get('path', ''))]
-            sig[mname] = len(calls)
-            ok = len(calls) == nv
-            r_disp.inst('%s::%s dispatches %d of %d variants to the core' % (adt, mname, len(calls), nv), ok=ok, site=b.loc(0))
+                pred = lambda f, pattern=pattern: bool(re.search(pattern, f.get('path', '')))
+            else:
+                pred = lambda f, pattern=pattern: f.get('krate') == 'oxmpl' and bool(re.search(pattern, f.get('path', ''))) \
+                    and 'geometric' in (f.get('path', '') + f.get('full', ''))
+            ncalls = weight(py, b, pred)
+            sig[mname] = ncalls
+            ok = ncalls == nv
+            r_disp.inst('%s::%s dispatches %d of %d variants to the core' % (adt, mname, ncalls, nv), ok=ok, site=b.loc(0))
             if not ok:
                 r_disp.violations.append(Violation('C19', 'C19.dispatch', b.path, mname,
-                                                   '%s reaches the core for %d of %d variants' % (mname, len(calls), nv), loc=b.loc(0)))
+                                                   '%s reaches the core for %d of %d variants' % (mname, ncalls, nv), loc=b.loc(0)))
             if mname == 'solve':
-                # error mapping: to_string() into a Python exception, Ok -> PyPath::from
-                froms = [t for _bi, t in b.calls() if t['func'].get('path') == 'std::convert::From::from' or t['func'].get('path', '').endswith('PyPath::from')]
-                sig['solve_from'] = len([t for t in froms if 'PyPath' in t['func'].get('full', '') or 'PyPath' in str(t['func'].get('self_ty', ''))])
+                # Ok -> PyPath::from (directly, as a function item given to map, or in a helper)
+                sig['solve_from'] = any(
+                    (f.get('path') == 'std::convert::From::from' or f.get('path', '').endswith('PyPath::from')) and
+                    ('PyPath' in f.get('full', '') or 'PyPath' in str(f.get('self_ty', ''))) for f in reach_refs(py, b))
         sigs[adt] = sig
     names = sorted(sigs)
     if names:
@@ -249,8 +334,7 @@ def run(ctx, tier):
                    ('unwrap', 'expect', 'unwrap_or', 'unwrap_or_default', 'unwrap_or_else', 'ok', 'unwrap_unchecked')]
             if bad:
                 probs.append('the constructor result is consumed by %s: a core error becomes a panic / is swallowed' % bad[0])
-            excs = {t2['func'].get('full', '') for _bj, t2 in b.calls() if 'new_err' in t2['func'].get('path', '') or
-                    'PyErr::new' in t2['func'].get('path', '')}
+            excs = {f.get('full', '') for f in reach_refs(py, b) if 'new_err' in f.get('path', '') or 'PyErr::new' in f.get('path', '')}
             kinds = set()
             for e in excs:
                 m = re.findall(r'exceptions::(Py\w+)', e)
@@ -310,4 +394,10 @@ def _lossless(b):
                 probs.append('float operation %s at %s' % (p, b.loc(bi)))
             if re.match(r'^oxmpl::base::states?::', p) and p.rsplit('::', 1)[1] in ('new', 'normalise', 'identity'):
                 probs.append('re-canonicalisation through %s at %s' % (p, b.loc(bi)))
+            # a conversion only clones, wraps and collects: any state-space operation applied on the way (clamping the start
+            # into the bounds, interpolating, sampling) makes the Python problem differ from the one the core would be given
+            full = t['func'].get('full', '') + ' ' + p
+            if ('oxmpl::base::space::StateSpace' in full or re.search(r'StateSpace(<[^>]*>)?>?::', full)) and \
+                    p.rsplit('::', 1)[-1] in ('enforce_bounds', 'interpolate', 'sample_uniform', 'enforce_bounds_dyn', 'interpolate_dyn', 'sample_uniform_dyn'):
+                probs.append('the state is passed through the state-space operation %s at %s' % (p.rsplit('::', 1)[-1], b.loc(bi)))
     return probs
